@@ -20,6 +20,7 @@ From Galaxy.Base Require Import Strs.
 From Galaxy.Model Require Import Nets Pool Ipam Plugin PluginInfo.
 From Galaxy.Model Require Keys.
 From Galaxy.Proofs Require Import IpamP PluginInv PluginStickyP PluginAnswerP.
+From Galaxy.Proofs Require Import PluginRoundsP.
 Local Open Scope N_scope.
 
 (** a successful Bind of a pod requesting k range lists answers with k IPs, the i-th inside the i-th range list
@@ -68,3 +69,50 @@ Example bind_store_fault_keeps_nothing :
   i_alloc (w_ipam res.1) = i_alloc (w_ipam w) ∧ i_store (w_ipam res.1) = i_store (w_ipam w).
 Proof. exact ex_bind_store_fault_l. Qed.
 Print Assumptions bind_store_fault_keeps_nothing.
+
+(** ** the IP ByKeyAndIPRanges answers for a range list is the first in walk order (Proofs/PluginRoundsP.v; twin of the
+    monitor held_ip_of_a_range_list_is_the_first_in_walk_order)
+
+    ANY tables [s], key and request [rss]; [by_key_ranges s key rss] (Model/Ipam.v) has one slot per range list, what Filter
+    and Bind re-use.  "First" is said with the model's own walk: [met_before rl y x] (Proofs/PluginRoundsP.v) =
+    [y ≠ x] and [first_in_ranges (λ z, (z =? y) || (z =? x)) (ranges_fuel rl) rl = Some (Some y)] - the walk of [rl] that
+    looks for the two addresses [x] and [y] meets [y].  The i-th slot [Some x]: the key holds [x], [x] lies in the i-th
+    range list, and no address the walk meets before [x] is held by the key. *)
+Theorem held_slot_is_first_in_walk_order : ∀ s key rss i x rl,
+  by_key_ranges s key rss !! i = Some (Some x) → rss !! i = Some rl →
+  holds s key x ∧ in_ranges rl x = true ∧ ∀ y, met_before rl y x → ¬ holds s key y.
+Proof. exact held_slot_is_first_in_walk_order_l. Qed.
+Print Assumptions held_slot_is_first_in_walk_order.
+
+(** determinism: the answer depends only on the SET of addresses the key holds (not on attributes, time stamps, other
+    keys' entries or Go's map order) *)
+Theorem by_key_ranges_deterministic : ∀ s s' key rss,
+  (∀ y, holds s key y ↔ holds s' key y) → by_key_ranges s key rss = by_key_ranges s' key rss.
+Proof. exact by_key_ranges_deterministic_l. Qed.
+Print Assumptions by_key_ranges_deterministic.
+
+(** a range list that is the single range [lo, hi]: the answer is the SMALLEST address of the range the key holds *)
+Theorem held_slot_single_range : ∀ s key rss i x lo hi,
+  by_key_ranges s key rss !! i = Some (Some x) → rss !! i = Some [((lo, hi) : range)] →
+  holds s key x ∧ lo <= x ∧ x <= hi ∧ ∀ y, lo <= y → y <= hi → holds s key y → x <= y.
+Proof. exact held_slot_single_range_l. Qed.
+Print Assumptions held_slot_single_range.
+
+(** ... and for a list that starts with the range [lo, hi]: no held address of [lo, hi] lies below the answer *)
+Theorem held_slot_first_range : ∀ s key rss i x lo hi (rest : list range),
+  by_key_ranges s key rss !! i = Some (Some x) → rss !! i = Some (((lo, hi) : range) :: rest) →
+  ∀ y, lo <= y → y <= hi → holds s key y → x <= y.
+Proof. exact held_slot_first_range_l. Qed.
+Print Assumptions held_slot_first_range.
+
+(** non-vacuity ([walk_ipam]: the key of ns1/web-0 holds 10.100.0.3 and 10.100.0.4): for the single range
+    10.100.0.2-10.100.0.4 the slot is 10.100.0.3; 10.100.0.4 is held and in the range, but met later; 10.100.0.2 is met
+    before 10.100.0.3 and is not held *)
+Example held_slot_is_first_nonvacuous :
+  let rss := [[((ip4 10 100 0 2, ip4 10 100 0 4) : range)]] in
+  Inv2 walk_ipam ∧ by_key_ranges walk_ipam (pod_key wit_pod) rss !! 0%nat = Some (Some (ip4 10 100 0 3)) ∧
+  holds walk_ipam (pod_key wit_pod) (ip4 10 100 0 4) ∧ in_ranges [(ip4 10 100 0 2, ip4 10 100 0 4)] (ip4 10 100 0 4) = true ∧
+  met_before [(ip4 10 100 0 2, ip4 10 100 0 4)] (ip4 10 100 0 2) (ip4 10 100 0 3) ∧
+  ¬ holds walk_ipam (pod_key wit_pod) (ip4 10 100 0 2).
+Proof. exact ex_held_slot_first_l. Qed.
+Print Assumptions held_slot_is_first_nonvacuous.
